@@ -476,3 +476,26 @@ class ModelWeight(Contract):
                             conds.append(L.not_(must[k]))
                     alts.append(L.and_(L.eq(w[m, g], val), *conds))
                 yield f"cell_is_product_of_applicable_weights[{m},{g}]", L.or_(*alts)
+
+
+# ----------------------------------------------------------------------------- interval items inside the provider pipeline
+from contracts.c02_objective import Objective as _Objective  # noqa: E402
+
+
+class IntervalItemsInThePipeline(_Objective):
+    """Constraints, relations, equal-area penalties and model weights with intervals as the matrix providers apply them:
+    at every global index exactly the items whose interval holds that axis value act (per index - the labels present at
+    one index say nothing about another), relations before constraints.  Harness and reference of C02 `Objective`,
+    restricted to the configurations that carry interval items."""
+
+    prop = "C08"
+    name = "IntervalItemsInThePipeline"
+
+    def cases(self, tier):
+        for case in super().cases(tier):
+            cfg = case["_cfg"]
+            if cfg.constraints or cfg.relations or cfg.penalties or cfg.model_weights:
+                yield case
+
+    def bounded_checks(self, tier, seed):
+        return []
